@@ -172,6 +172,7 @@ func runC05(c *Ctx) {
 	ruleCaseInsensitive(c, "R05.b")
 	ruleGateBeforeExecutorLite(c, "R05.c")
 	ruleHandlerErrorKeepsConn(c, "R05.d")
+	ruleNoWriteThroughView(c, "R05.r")
 	ruleOwnedBytes(c, "R05.e")
 	ruleAccessorsIdentity(c, "R05.f")
 	// "precisely the decoded arguments" presupposes that decoding does not depend on how the bytes
